@@ -210,6 +210,17 @@ def _ap_binop(op, l, r):
             else:
                 return None
             return (a.parts[0],) + tuple(nums)
+        if isinstance(a.parts, tuple) and a.parts and a.parts[0] == "pconst" and k.shape == () and k.has_const() and \
+                isinstance(k.const, (int, float)) and not isinstance(k.const, bool):
+            cst = k.const
+            f = {ast.Add: lambda x: x + cst, ast.Mult: lambda x: x * cst}.get(type(op))
+            if isinstance(op, ast.Sub) and not swapped:
+                f = lambda x: x - cst
+            if isinstance(op, ast.Div) and not swapped and cst != 0:
+                f = lambda x: x / cst
+            if f is None:
+                return None
+            return ("pconst", f(a.parts[1]), tuple((i, f(v_)) for i, v_ in a.parts[2]))
         # ("elems", (v0, ..)): a short array of known numbers (a slice x[a:a+1] of a piecewise-constant array)
         if isinstance(a.parts, tuple) and a.parts and a.parts[0] == "elems" and k.shape == () and k.has_const() and \
                 isinstance(k.const, (int, float)) and not isinstance(k.const, bool):
@@ -841,6 +852,9 @@ def subscript(I, fr, base, idx, node, quiet=False):
         b_ = int_const(up_) if up_ is not None else None
         if st_ is None and a_ is not None and b_ is not None and a_ >= 0 and b_ == a_ + 1:
             parts_ = ("elems", (dict(b.parts[2]).get(a_, b.parts[1]),))
+        elif st_ is None and up_ is None and a_ is not None and a_ >= 0:
+            # x[k:] of a piecewise-constant array is piecewise constant, its exceptional leading elements moved down by k
+            parts_ = ("pconst", b.parts[1], tuple(sorted((i - a_, v_) for i, v_ in b.parts[2] if i >= a_)))
     note = None
     if len(comps) == 1 and int_const(comps[0]) == -1 and 0 in b.mono and kind == K_ARRAY:
         note = "lastof"
